@@ -390,15 +390,28 @@ def rule_C2(ctx):
 
     bad = None
     n = 0
+    expanded = []
     for e in ks:
         val = e.kwargs["outlier_proposal_prob"]
+        a = val.as_atom() if isinstance(val, Poly) else None
+        if a is not None and a[0] == "cond":
+            # a conditional expression instead of an if / else statement: one case per alternative
+            neg = []
+            for g, vk in a[1]:
+                from ..termflow import g_not, _is_polykey, poly_from_key
+
+                expanded.append((e, poly_from_key(vk) if _is_polykey(vk) else None, list(e.full_guards) + neg + [g]))
+                neg.append(g_not(g))
+        else:
+            expanded.append((e, val, list(e.full_guards)))
+    for e, val, eguards in expanded:
         if not (isinstance(val, Poly) and val.is_const()):
-            raise AnalysisError("setup_kernel: outlier_proposal_prob is the non-constant %s" % show(val)[:80])
+            raise AnalysisError("setup_kernel: outlier_proposal_prob is the non-constant %s" % (show(val)[:80] if val is not None else "?"))
         c = val.const_value()
         ctx.check(0 <= c < 1, "C2", "setup_kernel: outlier proposal probability %s is in [0, 1)" % c, sk.where(e.node), "the kernel is built with outlier_proposal_prob = %s: the proposals' mixture weights (1 - q) / 2, (1 - q) and q are not probabilities" % c, construct=sk.qualname, stmt="outlier_proposal_prob constant")
         n += 1
         # under this path's guards the flag of the data-point move must be (c > 0)
-        guards = [subst(g, ren) if not isinstance(g, tuple) else __import__("pcstatic.termflow", fromlist=["subst_key"]).subst_key(g, ren) for g in e.full_guards]
+        guards = [subst(g, ren) if not isinstance(g, tuple) else __import__("pcstatic.termflow", fromlist=["subst_key"]).subst_key(g, ren) for g in eguards]
         on = c > 0
         for t in range(16):
             v = Valuation(t, salt="s0")
